@@ -17,6 +17,10 @@ HAND = [
     ("pp", ""),
     ("sv", "timeprecision 1ps; timeunit 1ns;\nmodule m; timeprecision 1ps;\n timeunit 1ns; wire w; endmodule\n"),
     ("sv", "module m; clocking cb @(posedge clk); input #1 output #2 d; default input #1step output negedge; endclocking endmodule\n"),
+    ("sv", "class c; function new(int a); x = a; endfunction : new\nendclass\nmodule m(.*); wire w; endmodule : m\ninterface i(.*); endinterface : i\n"),
+    ("sv", "module m; initial begin x = a.b().c().d(); y = q.f(1).g(2).h(3).k; end endmodule\n"),
+    # every kind of bracket group, ending a declaration / a statement
+    ("sv", "module m; int a [2] = '{1, 2}; int b [2][2] = '{'{1, 2}, '{default:0}}; initial begin c = '{2{3}}; '{x, y} = '{1, 2}; if (e matches '{.p, .q}) z = {a, {b}}; w = v[u[1]]; end endmodule\n"),
     # nodes with many fields, all of them present (the widest tuples of the tree)
     ("sv", "interface class I; endclass\ninterface class J; endclass\nclass B; endclass\nvirtual class automatic C #(int P = 1) extends B implements I, J; int x; endclass : C\n"),
     ("sv", "module automatic m import p::*; #(parameter P = 1) (input logic a, output logic b); timeunit 1ns; endmodule : m\n"),
